@@ -118,6 +118,12 @@ class ModuleSweep:
                 if kw.get('reproduced') and not f.get('reproduced'):
                     f.update(kw)
                 return f
+        if not kw.get('reproduced') and isinstance(kw.get('input'), str):
+            from .isets import case_map
+            weird = ISet.of([x for img in list(case_map('upper')[1].values()) + list(case_map('lower')[1].values()) for x in img]).minus(ASCII)
+            if any(weird.contains(ord(ch)) for ch in kw['input']):
+                kw['approx'] = True
+                kw['approx_why'] = list(kw.get('approx_why') or []) + ['character that only arises from a multi-character case expansion']
         f = dict(property=prop, module=self.modname, kind=kind, key=key, count=1, **kw)
         self.findings.append(f)
         return f
